@@ -456,6 +456,9 @@ class Interp:
         return {"MultiVector": "multivector", "TapeRecorder": "taperecorder"}.get(cls, "multivector")
 
     def binop(self, op, a, b, node=None):
+        if isinstance(op, ast.Div) and isinstance(b, T) and b.is_pure_scalar() and isinstance(a, (int, float)) and a == 1 \
+                and getattr(self, "scalar_reciprocals", False):
+            return Obj("reciprocal", {"of": b, "fmt": f"(1/{b!r})"})
         if isinstance(a, T) or isinstance(b, T):
             d = BINOP_DUNDER.get(type(op))
             if d is None:
@@ -586,6 +589,8 @@ class Interp:
                     return self.call_function(e.node, [v], {}, {}, self._module_of_cls(v.cls))
                 return Bound(v, name)
             if BLADE_RE.match(name):
+                if name == "e" and v.is_pure_scalar():
+                    return v
                 return T.scalar(("coef", v.key(), name), v.cls)
             if name in ("_values", "_keys", "expr"):
                 return Unk(name)
